@@ -24,7 +24,7 @@ SPEC_DIR = os.path.join(vlib.SPEC, "limits")
 CONST_ORDER = ["Denom", "DepositDenom", "OtherDenom", "UnitCPU", "UnitMem", "UnitSto",
                "MinUnitCPU", "MaxUnitCPU", "MaxGroupCPU", "MinUnitMem", "MaxUnitMem", "MaxGroupMem",
                "MinUnitSto", "MaxUnitSto", "MaxGroupSto", "MinUnitCount", "MaxUnitCount",
-               "MinUnitPrice", "MaxUnitPrice", "MaxGroupCount", "MaxGroupUnits", "VersionLen", "MinDeposit", "Funds",
+               "MinUnitPrice", "MaxUnitPrice", "MaxGroupCount", "MaxGroupUnits", "VersionLen", "MinDeposit", "Funds", "BaseDSeq",
                "MidCPU", "MidMem", "MidSto", "MidOff", "MidCount", "MidPrice", "MidDeposit", "BuildSteps"]
 
 
@@ -48,7 +48,7 @@ def interior(consts, seed):
     return c
 
 
-ALL_FAMS = ["shapes", "single", "dep", "names", "totals", "pairs", "cross", "mix"]
+ALL_FAMS = ["shapes", "single", "dep", "names", "totals", "pairs", "cross", "mix", "update"]
 
 
 def render_cfg(consts, tier, impl, kind, fams=None):
@@ -100,8 +100,8 @@ def get_table(vh):
 
 FAM_GROUPS = {
     "tiny": [ALL_FAMS],
-    "quick": [["pairs"], ["single", "totals"], ["shapes", "dep", "names", "cross", "mix"]],
-    "thorough": [["totals"], ["cross"], ["pairs", "mix"], ["single"], ["shapes", "dep", "names"]],
+    "quick": [["pairs"], ["single", "totals"], ["shapes", "dep", "names", "cross", "mix", "update"]],
+    "thorough": [["totals"], ["cross"], ["pairs", "mix"], ["single"], ["shapes", "dep", "names", "update"]],
 }
 
 
@@ -176,9 +176,10 @@ def selftest(consts, trace_path, workdir, verdicts):
         v = vd[ln["id"]]
         if not (v["p1"] and v["p2"] and v["p3"]):
             continue
-        if acc is None and ln["accepted"] and ln["msg"]["groups"] and ln["msg"]["groups"][0]["units"]:
+        if (acc is None and ln["accepted"] and ln["msg"]["kind"] == "create" and ln["msg"]["groups"]
+                and ln["msg"]["groups"][0]["units"]):
             acc = ln
-        if rej is None and not ln["accepted"] and not v["within"]:
+        if rej is None and not ln["accepted"] and ln["msg"]["kind"] == "create" and not v["within"]:
             rej = ln
         if acc is not None and rej is not None:
             break
@@ -214,7 +215,7 @@ def selftest(consts, trace_path, workdir, verdicts):
 def describe(m):
     """Short human description of an abstract message (for samples / violation detail)."""
     gs = m["groups"]
-    return {"idc": m["idc"], "groups": len(gs), "units": [len(g["units"]) for g in gs][:6],
+    return {"kind": m.get("kind"), "idc": m["idc"], "groups": len(gs), "units": [len(g["units"]) for g in gs][:6],
             "names": [g["name"] for g in gs][:4], "version": m["version"], "deposit": m["deposit"], "ddenom": m["ddenom"],
             "unit[1][1]": gs[0]["units"][0] if gs and gs[0]["units"] else None}
 
